@@ -1585,4 +1585,12 @@ theorem lastEnabled_append_list (dflt : Bool) (cname : Str) (cur : Bool) (a b : 
   | nil => rfl
   | cons x rest ih => simp only [List.cons_append, lastEnabled]; exact ih _
 
+/-! ### run modes -/
+
+theorem allFired_runs (subgraphs : List (List Rule)) :
+    allFired (subgraphs.map (fun g => Op.run (g.map (·, true)))) = subgraphs.flatten.map (·, true) := by
+  induction subgraphs with
+  | nil => rfl
+  | cons g rest ih => simp only [List.map_cons, allFired, ih, List.flatten_cons, List.map_append]
+
 end IV.Rules
